@@ -146,7 +146,7 @@ There is no instant at which all heads are read together, so "the newest head kn
 newest head the refresh read; that is the strongest true statement. -/
 theorem select_spec_concurrent (v : Variant) (hv : v.oneSnapshot = true) (s s' : State) (hr : Reachable v s)
     (hs : PoolSM.step v s .ubSet = some s') :
-    ∃ i seqs acc, s.run = .ubSel i seqs acc ∧ acc.length = s.heads.length ∧ acc.map (·.seqno) = seqs ∧
+    ∃ i seqs rts acc, s.run = .ubSel i seqs rts acc ∧ acc.length = s.heads.length ∧ acc.map (·.seqno) = seqs ∧
       (∀ (k : Nat) (c : Conn), acc[k]? = some c → c.id = k ∧ c.seqno.toNat ≤ s.heads.getD k 0) ∧
       s'.best = (match specSelect s.strategy acc none with | some c => some c.id | none => s.best) ∧
       (∀ c, specSelect s.strategy acc none = some c →
@@ -155,9 +155,9 @@ theorem select_spec_concurrent (v : Variant) (hv : v.oneSnapshot = true) (s s' :
   have hS := reachable_invS hv hr
   simp only [PoolSM.step] at hs
   split at hs
-  · rename_i i seqs acc hrun
-    obtain ⟨hlen, hok⟩ := hL.selOk i seqs acc hrun
-    obtain ⟨hi, hsl, hsame⟩ := hS.selLen i seqs acc hrun
+  · rename_i i seqs rts acc hrun
+    obtain ⟨hlen, hok⟩ := hL.selOk i seqs rts acc hrun
+    obtain ⟨hi, hsl, hsame⟩ := hS.selLen i seqs rts acc hrun
     split at hs
     · rename_i hge
       have hin : i = s.heads.length := by omega
@@ -197,7 +197,7 @@ theorem select_spec_concurrent (v : Variant) (hv : v.oneSnapshot = true) (s s' :
         simp only [candidates, List.mem_filter, Bool.and_eq_true, current, List.all_eq_true,
           decide_eq_true_eq] at hmem
         exact ⟨hmem.1, hmem.2.1, hmem.2.2⟩
-      refine ⟨i, seqs, acc, hrun, by omega, hmap, hok.2, ?_, hcand⟩
+      refine ⟨i, seqs, rts, acc, hrun, by omega, hmap, hok.2, ?_, hcand⟩
       rw [hsel] at hs
       cases hsp : specSelect s.strategy acc none with
       | none => rw [hsp] at hs; cases hs; rfl
